@@ -88,3 +88,14 @@ func sortedInts(m []int) []int {
 	}
 	return out
 }
+
+// clamp32 keeps an integer within what TLC's 32-bit integers hold (monotone, so order comparisons survive)
+func clamp32(n int) int {
+	if n > 2000000000 {
+		return 2000000000
+	}
+	if n < -2000000000 {
+		return -2000000000
+	}
+	return n
+}
